@@ -158,6 +158,65 @@ def _guards(loop: ast.For, st: ast.AST) -> list:
     return out
 
 
+def _sortedness_test(e: ast.AST) -> bool:
+    """does the expression test that parents are stored before their children (parent position < own position)?"""
+    for c in ast.walk(e):
+        if isinstance(c, ast.Compare) and len(c.ops) >= 1 and all(isinstance(o, (ast.Lt, ast.LtE, ast.Gt, ast.GtE)) for o in c.ops):
+            sides = [c.left] + list(c.comparators)
+            txt = [norm_src(x) for x in sides]
+            parentish = [any(w in t.lower() for w in PARENT_WORDS) for t in txt]
+            rowish = [("arange" in t or "range(" in t or t in ("i", "idx", "k", "n") or ".id()" in t or t.endswith("ids") or "index" in t.lower()) for t in txt]
+            if any(parentish) and any(r and not p for r, p in zip(rowish, parentish)):
+                return True
+        if isinstance(c, ast.Call) and "sorted" in (dotted(c.func) or "").lower() and "sorted(" != (dotted(c.func) or "") + "(":
+            return True
+    return False
+
+
+def guarded_by_sortedness(ctx, d: Def) -> bool:
+    """the recurrence runs only on tables checked to be stored parents-first: the function tests it itself, or it is a private helper all of whose
+    call sites in its module sit under such a test (directly, or through a predicate function that makes the comparison)"""
+    if _sortedness_test(d.node):
+        return True
+    if not d.name.startswith("_"):
+        return False
+    mod = d.module
+    preds = set()
+    for other in ctx.repo.all_defs():
+        if other.module is mod and not other.is_lambda and other is not d and _sortedness_test(other.node) and any(isinstance(r, ast.Return) for r in ast.walk(other.node)):
+            preds.add(other.name)
+    sites = []
+    for other in ctx.repo.all_defs():
+        if other.module is not mod or other.is_lambda or other is d:
+            continue
+        for c in own_nodes(other):
+            if isinstance(c, ast.Call) and (dotted(c.func) or "").rsplit(".", 1)[-1] == d.name:
+                sites.append((other, c))
+    if not sites:
+        return False
+    for other, c in sites:
+        ok = False
+        cur = ctx.repo.parent(c)
+        while cur is not None and cur is not other.node:
+            if isinstance(cur, (ast.If, ast.IfExp, ast.While)):
+                t = cur.test
+                if _sortedness_test(t) or any(isinstance(x, ast.Call) and (dotted(x.func) or "").rsplit(".", 1)[-1] in preds for x in ast.walk(t)):
+                    ok = True
+                    break
+            cur = ctx.repo.parent(cur)
+        if not ok:
+            # an early-exit guard: `if not pred(...): return slow(...)` in front of the call
+            for st in other.node.body:
+                if getattr(st, "lineno", 0) >= getattr(c, "lineno", 0):
+                    break
+                if isinstance(st, ast.If) and (_sortedness_test(st.test) or any(isinstance(x, ast.Call) and (dotted(x.func) or "").rsplit(".", 1)[-1] in preds for x in ast.walk(st.test))) \
+                        and any(isinstance(x, (ast.Return, ast.Raise)) for x in ast.walk(ast.Module(body=st.body, type_ignores=[]))):
+                    ok = True
+        if not ok:
+            return False
+    return True
+
+
 def check(ctx, col, rule: str, modules: tuple, what: str = "the scanned modules"):
     """Zero-expected rule with kept positive examples."""
     import os
@@ -167,7 +226,14 @@ def check(ctx, col, rule: str, modules: tuple, what: str = "the scanned modules"
         if d.module.name not in modules or d.is_lambda:
             continue
         n_defs += 1
-        for loop, st, arr, rd in find(d):
+        found_here = find(d)
+        if found_here and guarded_by_sortedness(ctx, d):
+            for loop, st, arr, rd in found_here:
+                col.unresolved(rule, d.qualname, d.loc(st), f"recurrence over `{arr}` along the row order",
+                               f"`{norm_src(st)}` is a recurrence along the storage order, but it runs under a test that the table is stored parents-first "
+                               f"(whether that test is strong enough is not decided here)", stmt=f"rec:{arr}")
+            continue
+        for loop, st, arr, rd in found_here:
             hits += 1
             col.bad(rule, d.qualname, d.loc(st), f"recurrence over `{arr}` along the row order",
                     f"`{norm_src(st)}` inside `for {norm_src(loop.target)} in {norm_src(loop.iter)}` depends on "
